@@ -23,6 +23,10 @@ pub struct Case {
     /// protocol handlers at this protocol version; every refused message is compared
     #[serde(default)]
     pub wire: Option<WireCase>,
+    /// API group: the node persists through KVVPersister<RedbKVVStore> (the store vlsd uses by
+    /// default, database on tmpfs); the store dump compared around every refused request is redb's
+    #[serde(default)]
+    pub redb: bool,
 }
 
 #[derive(Clone, Debug, Serialize, Deserialize)]
@@ -116,16 +120,19 @@ impl Prop for C10 {
     }
     fn strategy(&self, tier: Tier) -> BoxedStrategy<Case> {
         let n = tier.pick(40usize, 100usize);
-        let api = (prop::bool::weighted(0.4), any::<bool>(), prop::bool::weighted(0.4), proptest::collection::vec(op_strat(true), 1..n)).prop_map(|(cloud, anchors, full_window, ops)| Case { cloud, anchors, full_window, ops, wire: None });
+        let api = (prop::bool::weighted(0.4), any::<bool>(), prop::bool::weighted(0.4), proptest::collection::vec(op_strat(true), 1..n), prop::bool::weighted(0.15)).prop_map(|(cloud, anchors, full_window, ops, redb)| Case { cloud: cloud && !redb, anchors, full_window, ops, wire: None, redb });
         let wire = (4u8..7, any::<bool>(), any::<bool>(), proptest::collection::vec(crate::props::holder::op_strat(2, 2), 1..n))
-            .prop_map(|(version, anchors, outbound, ops)| Case { cloud: false, anchors, full_window: false, ops: vec![], wire: Some(WireCase { version, outbound, ops }) });
+            .prop_map(|(version, anchors, outbound, ops)| Case { cloud: false, anchors, full_window: false, ops: vec![], wire: Some(WireCase { version, outbound, ops }), redb: false });
         prop_oneof![4 => api, 1 => wire].boxed()
     }
     fn run(&self, case: &Case, st: &mut CaseStats, ctx: &Ctx) -> Result<(), Violation> {
         if let Some(wc) = &case.wire {
             return self.run_wire(case, wc, st, ctx);
         }
-        let mut m = Machine::new(case.cloud, case.anchors);
+        let mut m = Machine::new_mode_store(case.cloud && !case.redb, false, case.anchors, false, case.redb);
+        if case.redb {
+            st.class("redb_store_history");
+        }
         if case.full_window {
             m.fill_header_window();
             st.class("full_header_window");
